@@ -147,7 +147,7 @@ def run_case(case, ctx):
     ctx.feat(N=len(shape), nnzc=("0" if nnz == 0 else "1" if nnz == 1 else "2+"), has_singleton=bool(1 in shape))
     T = gen.mk_tensor(ttb, A, case.get("hist", "ctor"))
     ctx.feat(hist=case.get("hist", "ctor"))
-    S = gen.mk_sptensor(ttb, A, case["so"])
+    S = gen.mk_sptensor(ttb, A, case["so"], hist=("grown-subs" if case.get("hist") == "grown" else None))
     w = case["w"]
     if w == "permute":
         order = [int(o) for o in case["order"]]
